@@ -37,6 +37,7 @@ func (e *env) execOps(ops []Op, o *objects, sess *act.Session, budget int64, per
 	}
 	for i := range ops {
 		op := &ops[i]
+		gsim.Cur().Steps = 0 // the step budget is per operation
 		switch op.Op {
 		case "parse":
 			if o.p == nil {
@@ -72,9 +73,11 @@ func (e *env) execOps(ops []Op, o *objects, sess *act.Session, budget int64, per
 			if o.l == nil {
 				continue
 			}
-			for k := 0; k < op.N; k++ {
-				o.l.Scan()
-			}
+			guard(func() {
+				for k := 0; k < op.N; k++ {
+					o.l.Scan()
+				}
+			})
 		case "lexctx":
 			if o.l != nil {
 				o.lctx = ctxOf(op.Ctx)
@@ -85,14 +88,19 @@ func (e *env) execOps(ops []Op, o *objects, sess *act.Session, budget int64, per
 				continue
 			}
 			o.l.Reset()
-			u := strings.Join(e.scanAll(o.l, len(o.lsrc)+4), " ")
-			var f string
+			var u, f string
+			if d := guard(func() { u = strings.Join(e.scanAll(o.l, len(o.lsrc)+4), " ") }); d != "" {
+				u = d
+			}
 			if perOp != nil {
 				lf := e.g.NewLexer([]byte(o.lsrc))
 				if o.lctx != nil {
 					lf.SetContext(o.lctx)
 				}
-				f = strings.Join(e.scanAll(lf, len(o.lsrc)+4), " ")
+				gsim.Cur().Steps = 0
+				if d := guard(func() { f = strings.Join(e.scanAll(lf, len(o.lsrc)+4), " ") }); d != "" {
+					f = d
+				}
 			}
 			note(i, "tokens: "+u, "tokens: "+f)
 		case "parselex":
@@ -187,4 +195,20 @@ func firstDiff(a, b string) string {
 		return s[lo:hi]
 	}
 	return fmt.Sprintf("used: ...%s... fresh: ...%s...", cut(a), cut(b))
+}
+
+// guard runs f and turns a panic out of generated code (or the step budget)
+// into an observation instead of a harness failure.
+func guard(f func()) (panicked string) {
+	defer func() {
+		if r := recover(); r != nil {
+			if _, ok := r.(gsim.BudgetExceeded); ok {
+				panicked = "step budget exceeded"
+				return
+			}
+			panicked = fmt.Sprintf("panic: %v", r)
+		}
+	}()
+	f()
+	return ""
 }
